@@ -167,7 +167,7 @@ func decSrc(w *ev.Writer, kind, name string, src *boc.Cell, ptr any, where strin
 	m["dec"] = st
 	if st != "ok" {
 		m["msg"] = msg
-		w.Emit(m)
+		emit(w, m)
 		return
 	}
 	val := reflect.ValueOf(ptr).Elem()
@@ -176,6 +176,10 @@ func decSrc(w *ev.Writer, kind, name string, src *boc.Cell, ptr any, where strin
 		// dictionaries as [key bits, value] in ascending key order (the shape TlbDec!Dec produces); the source cell also as a
 		// structure, so that the specification's decoder can read it
 		dv := dumpDictBits(val)
+		if err := shapeOfDump(name, dv); err != nil {
+			emit(w, ev.M{"k": "Shape", "type": name, "where": where, "why": err.Error(), "vs": canon(dv)})
+			return
+		}
 		m["v"] = dv
 		m["ds"] = canon(dv)
 		m["tj"] = tlbx.Tree(src)
@@ -187,7 +191,7 @@ func decSrc(w *ev.Writer, kind, name string, src *boc.Cell, ptr any, where strin
 	} else {
 		m["msg"] = msg
 	}
-	w.Emit(m)
+	emit(w, m)
 }
 
 // DriveC04 records (a) random values of the core block.tlb structures with their cells (ENC) and (b) every message
@@ -218,13 +222,17 @@ func DriveC04(w *ev.Writer, o Opts) {
 			if cs := canon(dv); strings.Contains(cs, `"nil":true`) || strings.Contains(cs, `"c":""`) {
 				continue // the generator stopped at its depth limit and left a constructor / enumeration empty: not a value of the type
 			}
+			if err := shapeOfDump(name, dv); err != nil {
+				emit(w, ev.M{"k": "Shape", "type": name, "where": "random value", "why": err.Error(), "vs": canon(dv)})
+				continue
+			}
 			m := ev.M{"k": "ENC", "type": name, "v": dv, "enc": st, "tree": "", "msg": msg}
 			if st == "ok" {
 				m["tree"] = tlbx.TreeText(c)
 				m["tj"] = tlbx.Tree(c)
 				m["ds"] = canon(dv)
 			}
-			w.Emit(m)
+			emit(w, m)
 		}
 	}
 	// real blocks
@@ -240,12 +248,12 @@ func DriveC04(w *ev.Writer, o Opts) {
 		}
 		roots, err := boc.DeserializeBoc(data)
 		if err != nil || len(roots) != 1 {
-			w.Emit(ev.M{"k": "Panic", "where": bp, "panic": fmt.Sprint("block does not parse: ", err)})
+			emit(w, ev.M{"k": "Panic", "where": bp, "panic": fmt.Sprint("block does not parse: ", err)})
 			continue
 		}
 		var blk tlb.Block
 		if st, msg := unmarshal(roots[0], &blk); st != "ok" {
-			w.Emit(ev.M{"k": "Panic", "where": bp, "panic": "block does not decode: " + st + " " + msg})
+			emit(w, ev.M{"k": "Panic", "where": bp, "panic": "block does not decode: " + st + " " + msg})
 			continue
 		}
 		txs := blk.AllTransactions()
@@ -256,12 +264,12 @@ func DriveC04(w *ev.Writer, o Opts) {
 			where := fmt.Sprintf("%s tx %d", filepath.Base(filepath.Dir(bp)), ti)
 			sb, err := tx.SourceBoc()
 			if err != nil {
-				w.Emit(ev.M{"k": "Panic", "where": where, "panic": "no source boc: " + err.Error()})
+				emit(w, ev.M{"k": "Panic", "where": where, "panic": "no source boc: " + err.Error()})
 				continue
 			}
 			tc, err := boc.DeserializeSingleRootBoc(sb)
 			if err != nil {
-				w.Emit(ev.M{"k": "Panic", "where": where, "panic": "source boc: " + err.Error()})
+				emit(w, ev.M{"k": "Panic", "where": where, "panic": "source boc: " + err.Error()})
 				continue
 			}
 			var tx2 tlb.Transaction
@@ -278,7 +286,7 @@ func DriveC04(w *ev.Writer, o Opts) {
 			mc := refs[0]
 			mc.ResetCounters()
 			if st, msg := unmarshal(mc, &raw); st != "ok" {
-				w.Emit(ev.M{"k": "Panic", "where": where, "panic": "message cells: " + st + " " + msg})
+				emit(w, ev.M{"k": "Panic", "where": where, "panic": "message cells: " + st + " " + msg})
 				continue
 			}
 			var cellsM []*boc.Cell
